@@ -48,8 +48,9 @@
 (*   jobs       [bs, EN, ED, H, exact]: belief set in the code's row order, threshold EN/ED, *)
 (*              horizon (H = -1: None), exact = 1 iff the exact machine may run (numbers     *)
 (*              fit, horizon <= HCAP); otherwise only Closed / InSet / Covered are emitted   *)
-(*   expands    [from, to, exact]: recorded expand_beliefs calls (exact = 1: check the       *)
-(*              farthest-successor rule, else membership only)                              *)
+(*   expands    [from, to, exact]: recorded expand_beliefs calls (exact = 2: all farthest     *)
+(*              successors added; 1: a non-empty part of them; 0: membership only)          *)
+(*   rare       transitions <<s, a, n>> of negligible positive probability (see Covered)     *)
 (*   greedy     [rank, supp, wn, wd]: recorded action_dist calls - dense ranks of the        *)
 (*              policy's own action values, reported support and probabilities wn/wd        *)
 (* IOEnv.TIES = "both" explores the second tie rule as well.                                 *)
@@ -58,7 +59,7 @@ EXTENDS POMDP, Json, IOUtils
 Batch == JsonDeserialize(IOEnv.BATCH_FILE)
 
 VARIABLES iid,    \* instance
-          phase,  \* "new" | "ready" | "run" | "stopped" | "horizon" | "nohorizon" | "undefined" | "skipped"
+          phase,  \* "new" | "ready" | "run" | "stopped" | "horizon" | "nohorizon" | "skipped"
                   \* | "expanded" | "unexplained" | "greedy"
           orc,    \* oracle bundle of the instance (a function of iid, evaluated once by Prep)
           jt,     \* "none" | "pbvi" | "expand" | "greedy"
@@ -176,12 +177,14 @@ JobBs(m, j) == TLCEval([i \in 1..Len(m.jobs[j].bs) |-> W(m, m.jobs[j].bs[i])])
 ZeroAlpha(m, nb) == TLCEval([p \in 1..nb |-> TLCEval([s \in St(m) |-> 0])])
 PosOf(m, a) == CHOOSE p \in 1..m.K : m.aord[p] = a
 \* Pineau's horizon: ceil(log(eps / (rhi - rlo)) / log(gamma)) = least h with gamma^h (rhi - rlo) <= eps.
-\* -1: rhi = rlo (the formula divides by zero); HCAP + 1: more than HCAP (the machine does not run)
+\* With rhi = rlo (the code divides by machine epsilon instead) the threshold exceeds the reward range: h = 0,
+\* like whenever eps >= rhi - rlo: no backup is performed and the zero alpha vectors are returned.
+\* HCAP + 1: more than HCAP (the machine does not run)
 HCAP == 8
 \* gamma^h (rhi - rlo) / PD as a rational
 Shrunk(m, c, h) == RMul(Norm(Pow(m.GN, h), Pow(m.GD, h)), Norm(c.rhi - c.rlo, m.PD))
 AutoH(m, c, job) ==
-  IF c.rhi = c.rlo THEN -1
+  IF c.rhi = c.rlo THEN 0
   ELSE LET ok(h) == RLeq(Shrunk(m, c, h), <<job.EN, job.ED>>)
        IN IF \E h \in 0..HCAP : ok(h) THEN CHOOSE h \in 0..HCAP : ok(h) /\ \A g \in 0..(h - 1) : ~ok(g)
           ELSE HCAP + 1
@@ -244,9 +247,16 @@ RedNA(m, c, w) == Reduce(m, [s \in St(m) |-> IF s \in c.na THEN w[s] ELSE 0])
 \* every (masked) successor of w is, up to scaling and up to mass on absorbing states, a member of the
 \* belief set; RS = the canonical non-absorbing parts of the members
 RedSet(m, c, bs) == {RedNA(m, c, bs[i]) : i \in 1..Len(bs)}
+\* m.rare lists transitions <<s, a, n>> of positive but negligible probability (1e-9 in the real POMDP): the
+\* numbers P of the instance leave them out (values move by at most the harness's derived perturbation bound),
+\* the STRUCTURE keeps them: with revealing observations such a step leads to the vertex of n, which is a
+\* positive-probability successor belief like any other.
+RareVertices(m, w) == {Vertex(m, m.rare[i][3]) : i \in {j \in 1..Len(m.rare) : w[m.rare[j][1]] > 0}}
 Covered(m, c, RS, w) ==
-  \A a \in Ac(m) : \A o \in Ob(m) :
-     LET p == RedNA(m, c, PostM(m, c, w, a, o)) IN Dead(m, c, p) \/ p \in RS
+  /\ \A a \in Ac(m) : \A o \in Ob(m) :
+       LET p == RedNA(m, c, PostM(m, c, w, a, o)) IN Dead(m, c, p) \/ p \in RS
+  /\ \A i \in 1..Len(m.rare) :
+       (w[m.rare[i][1]] > 0 /\ m.rare[i][1] \in c.na /\ m.rare[i][3] \in c.na) => Vertex(m, m.rare[i][3]) \in RS
 InSet(m, c, RS, w) == Dead(m, c, w) \/ RedNA(m, c, w) \in RS
 Closed(m, c, bs) == LET RS == RedSet(m, c, bs) IN \A i \in 1..Len(bs) : Covered(m, c, RS, bs[i])
 
@@ -267,7 +277,7 @@ Dist2(m, w, v) ==
   LET sw == BSum(m, w) sv == BSum(m, v) IN
   Norm(SumTo([s \in St(m) |-> LET x == Safe(w[s] * sv) - Safe(v[s] * sw) IN Safe(x * x)], m.N), Safe(Safe(sw * sv) * Safe(sw * sv)))
 \* successors under the LITERAL filter (declared rows of absorbing states included): what next_beliefs enumerates
-Succs(m, w) == UNION {BSucc(m, w, a) : a \in Ac(m)}
+Succs(m, w) == UNION {BSucc(m, w, a) : a \in Ac(m)} \cup RareVertices(m, w)
 \* farthest-successor rule: for each member, the successors whose distance to the set is maximal (if > 0)
 Far(m, B, w) ==
   LET su == Succs(m, w)
@@ -284,6 +294,9 @@ ExpandExact(m, B, B2) ==
   /\ B \subseteq B2
   /\ \A nb \in B2 \ B : \E w \in B : nb \in Far(m, B, w)
   /\ \A w \in B : Far(m, B, w) # {} => Far(m, B, w) \cap B2 # {}
+\* all probabilities and beliefs dyadic: floating point is exact, tied distances stay tied, every farthest
+\* successor of every member is added - in particular none of positive probability may be dropped
+ExpandAll(m, B, B2) == B2 = B \cup UNION {Far(m, B, w) : w \in B}
 
 \* ------------------------------------------------------------------ (R) greedy action distribution (trace validation)
 \* record: rank[a] (dense rank of the policy's own action value, position in action list), supp[a] in {0,1},
@@ -322,9 +335,6 @@ Start(j, t) ==
                      closed |-> Closed(M, orc.c, JobBs(M, j)),
                      inset |-> [i \in 1..Len(M.beliefs) |-> InSet(M, orc.c, RS, W(M, M.beliefs[i]))],
                      cov |-> [i \in 1..Len(M.beliefs) |-> Covered(M, orc.c, RS, W(M, M.beliefs[i]))]]
-     ELSE IF h = -1 THEN
-          /\ phase' = "undefined"
-          /\ out' = [iid |-> iid, kind |-> "pbvi", job |-> j, tb |-> t, phase |-> "undefined", h |-> h]
      ELSE IF h = 0 THEN
           /\ phase' = "nohorizon"
           /\ out' = JobResult(M, orc.c, j, t, ZeroAlpha(M, Len(M.jobs[j].bs)), 0, <<>>, "nohorizon", FALSE, FALSE)
@@ -355,7 +365,7 @@ Expand(i) ==
   /\ LET e  == M.expands[i]
          B  == AsSet(M, e.from)
          B2 == AsSet(M, e.to)
-         ok == IF e.exact = 1 THEN ExpandExact(M, B, B2) ELSE ExpandWeak(M, B, B2)
+         ok == IF e.exact = 2 THEN ExpandAll(M, B, B2) ELSE IF e.exact = 1 THEN ExpandExact(M, B, B2) ELSE ExpandWeak(M, B, B2)
      IN /\ phase' = IF ok THEN "expanded" ELSE "unexplained"
         /\ out' = [iid |-> iid, kind |-> "expand", rec |-> i, ok |-> ok, grew |-> B2 # B]
   /\ UNCHANGED <<iid, orc, tb, k, bv, tied>>
@@ -382,7 +392,7 @@ OracleRecord(m) ==
    na |-> orc.c.na, b |-> orc.b]
 Emit ==
   /\ phase = "ready" => PrintT(ToJson(OracleRecord(M)))
-  /\ phase \in {"stopped", "horizon", "nohorizon", "undefined", "skipped", "expanded", "unexplained", "greedy"}
+  /\ phase \in {"stopped", "horizon", "nohorizon", "skipped", "expanded", "unexplained", "greedy"}
         => PrintT(ToJson(out))
 
 \* ------------------------------------------------------------------ (P) properties of the design (MC)
@@ -447,4 +457,8 @@ InstancesWellFormed ==
         /\ Len(M.jobs[j].bs) >= 1
         /\ \A i \in 1..Len(M.jobs[j].bs) : BSum(M, W(M, M.jobs[j].bs[i])) > 0
         /\ (phase # "new" /\ M.jobs[j].H < 0) => ~AutoHExact(M, orc.c, M.jobs[j])
+  /\ Len(M.rare) > 0 => FullObs(M)
+  /\ \A i \in 1..Len(M.rare) :
+        /\ M.rare[i][1] \in St(M) /\ M.rare[i][2] \in Ac(M) /\ M.rare[i][3] \in St(M)
+        /\ M.P[M.rare[i][1]][M.rare[i][2]][M.rare[i][3]] = 0
 =============================================================================
